@@ -182,6 +182,15 @@ func main() {
 			out.Violate("listing-inconsistent", pr, map[string]any{"kind": "run", "case": c})
 		}
 	}
+	// concurrent first touch of one tuple (search aid): equal tuples must be
+	// handed the same datum, whatever the schedule
+	trials := 4000
+	if a.Thorough() {
+		trials = 40000
+	}
+	if cl, what := mrun.ConcurrentCreate(trials); cl != "" {
+		out.Violate(cl, what, map[string]any{"kind": "concurrent-create", "trials": trials})
+	}
 	out.Flush("keys: every tuple over {-,\\,a,0x00,0xff} up to the stated length/arity plus random tuples, non-trivial when a label contains '-' or '\\'; runs: random get/set/inc/remove/expire sequences over tuples that differ only in where separator and escape sit, non-trivial when >= 2 distinct tuples are used", false)
 }
 
